@@ -228,6 +228,12 @@ func (in *Interp) binop(op token.Token, t types.Type, x, y value) value {
 	case token.NEQ:
 		return tb.Not(in.eqnil(t, x, y))
 	}
+	if _, ok := x.(symFloat); ok {
+		unsupported("arithmetic or comparison on an opaque float")
+	}
+	if _, ok := y.(symFloat); ok {
+		unsupported("arithmetic or comparison on an opaque float")
+	}
 	if _, ok := x.(poison); ok {
 		unsupported("use of poison value: %s", x.(poison).why)
 	}
@@ -525,6 +531,11 @@ func (in *Interp) conv(fr *frame, tDst, tSrc types.Type, x value) value {
 					}
 					return tb.BV(w, uint64(int64(f)))
 				}
+			case symFloat:
+				if d.Kind() == types.Float64 || d.Kind() == types.Float32 {
+					return xv
+				}
+				unsupported("conversion of an opaque float to %v", tDst)
 			case complex128:
 				switch d.Kind() {
 				case types.Complex128:
